@@ -97,7 +97,8 @@ Inductive bq := BE (isteps : list rstep) | BN (isteps : list rstep) | BC (isteps
               | BPQ (isteps : list rstep) (ne : bool) (j : list rstep)   (* @steps == $steps, @steps != $steps *)
               | BX (isteps : list rstep) (body : list N)               (* @steps =~ /body/ *)
               | BCL (lit : list N) (o : cmpop) (isteps : list rstep)    (* number OP @steps: the literal on the left *)
-              | BLL (l : litv) (ne : bool) (isteps : list rstep).       (* 'text' == @steps, true != @steps, null == @steps *)
+              | BLL (l : litv) (ne : bool) (isteps : list rstep)        (* 'text' == @steps, true != @steps, null == @steps *)
+              | BRL (j : list rstep) (o : cmpop) (isteps : list rstep). (* $steps OP @steps: the `$` path on the left *)
 Definition bq_text (b : bq) : list N :=
   match b with
   | BE i => 64 :: render_steps i
@@ -111,6 +112,7 @@ Definition bq_text (b : bq) : list N :=
   | BX i body => 64 :: render_steps i ++ [61; 126; 47] ++ body ++ [47]
   | BCL lit o i => lit ++ op_text o ++ 64 :: render_steps i
   | BLL l ne i => litv_text l ++ (if ne then [33; 61] else [61; 61]) ++ 64 :: render_steps i
+  | BRL j o i => 36 :: render_steps j ++ op_text o ++ 64 :: render_steps i
   end.
 Definition and_text (c : list bq) : list N :=
   match c with [] => [] | b :: bs => bq_text b ++ flat_map (fun x => [38; 38] ++ bq_text x) bs end.
